@@ -501,7 +501,11 @@ pub(crate) fn generate_pipeline(
                             ir::GlobalStorage::Extern => {
                                 match context.global_variable_modes.get(gid).unwrap() {
                                     GlobalMode::Parameter { .. } => {
-                                        let set_index = global_to_set_index.get(gid).unwrap();
+                                        // Values outside of resources and constant buffers have no binding
+                                        let set_index = match global_to_set_index.get(gid) {
+                                            Some(set_index) => set_index,
+                                            None => return Err(GenerateError::UnboundGlobal),
+                                        };
                                         let member_expr = ast::Expression::Member(
                                             Box::new(Located::none(ast::Expression::Identifier(
                                                 ast::ScopedIdentifier::trivial(&format!(
